@@ -233,6 +233,155 @@ def correspond_box(ctx, name, cases, hcmd, dcmd, max_report=4):
     return len(failing)
 
 
+# ---------------------------------------------------------------------------
+# trainer level: configuration sweeps (oracle only; no Lean model of the whole trainer)
+# ---------------------------------------------------------------------------
+import math, subprocess
+FORMS = ["WW", "CS", "LLW", "ATM", "ATS", "ADM", "MMR", "RS", "OVA"]
+FORM_P = {"WW": lambda c: c - 1, "CS": lambda c: c - 1, "LLW": lambda c: c - 1, "ADM": lambda c: c - 1,
+          "ATM": lambda c: c, "ATS": lambda c: c, "RS": lambda c: c, "MMR": lambda c: 1, "OVA": lambda c: 1}
+# formulations whose M is the Gram matrix of the CENTRED nu (M_is_gram_of_nu): the dual objective controls the
+# decision values only up to a common function added to all classes, so centred values are compared
+CENTRED = {"LLW", "ATM", "ATS", "ADM", "MMR", "RS"}
+
+
+def gen_dataset(r, quick):
+    k = r.choice([2, 3, 3, 4, 4, 5])
+    n = r.range(max(k + 1, 5), 10 if quick else 16)
+    d = r.choice([1, 2, 2, 3])
+    xs = [r.range(5, 11) for _ in range(n * d)]          # coordinate = value - 8 in [-3, 3]
+    ys = list(range(k)) + [r.below(k) for _ in range(n - k)]
+    # shuffle labels
+    for i in range(n - 1, 0, -1):
+        j = r.below(i + 1); ys[i], ys[j] = ys[j], ys[i]
+    m = 4
+    probes = [r.range(4, 12) for _ in range(m * d)]
+    return dict(n=n, d=d, k=k, m=m, xs=xs, ys=ys, probes=probes,
+                ops=["data %d %d %d %s" % (n, d, k, " ".join(map(str, xs + ys))),
+                     "probes %d %s" % (m, " ".join(map(str, probes)))])
+
+
+def kxx(ds, pts, j, kern):
+    d = ds["d"]
+    v = [pts[j * d + t] - 8 for t in range(d)]
+    sq = sum(a * a for a in v)
+    return sq if kern == "lin" else ((sq + 1) ** 2 if kern == "poly" else 1.0)
+
+
+def parse_train(line):
+    out = {"raw": line, "oracle": re.findall(r"!oracle (\S+)", line)}
+    for m in re.finditer(r"(\w+)=(\S+)", line.split(" !oracle")[0]):
+        out[m.group(1)] = m.group(2)
+    for key in ("dec", "tdec", "alpha", "bias"):
+        if key in out:
+            out[key] = [float(x) for x in out[key].split(",") if x != ""]
+    return out
+
+
+def centre(vals, outputs):
+    res = []
+    for j in range(0, len(vals), outputs):
+        blk = vals[j:j + outputs]; mu = sum(blk) / len(blk)
+        res += [v - mu for v in blk]
+    return res
+
+
+def run_harness_lines(exe, ops, timeout=900):
+    e = dict(os.environ); e["OMP_NUM_THREADS"] = "1"
+    e.setdefault("ASAN_OPTIONS", "detect_leaks=0:abort_on_error=0")
+    p = subprocess.run([exe], input="\n".join(ops) + "\n", capture_output=True, text=True, errors="replace", env=e, timeout=timeout)
+    return p.returncode, p.stdout.splitlines(), p.stderr[-3000:]
+
+
+def trainer_sweeps(ctx, exe, nds):
+    """all formulations x bias x shrinking x cache x permutation x batch size on small integer-point data sets;
+    decision values compared across configurations within the bound that follows from the solver accuracy:
+    two eps-KKT points of the same concave dual have objectives within eps*sum(U-L) of the optimum, hence weight
+    vectors within sqrt(2*gap) of the optimal one, hence |f(x)-f'(x)| <= 2*sqrt(2*eps*n*P*C)*sqrt(k(x,x))."""
+    r = ctx.rng.fork("c16-train")
+    nviol = 0
+    seen = set()
+    for _ in range(nds):
+        ds = gen_dataset(r, ctx.quick)
+        n, k = ds["n"], ds["k"]
+        kern = r.choice(["lin", "lin", "poly", "rbf"])
+        C = r.choice(["0.5", "1", "2", "4"])
+        eps = r.choice(["1e-3", "1e-3", "1e-5"])
+        forms = FORMS if not ctx.quick else [r.choice(FORMS) for _ in range(3)]
+        ctx.hist("train_classes", k); ctx.hist("train_examples", n); ctx.hist("train_kernel", kern); ctx.hist("train_eps", eps)
+        for F in forms:
+            for bias in (0, 1):
+                if bias and eps != "1e-3" and ctx.quick:
+                    continue
+                base = (0, -1, 0, 256)
+                cfgs = [base, (1, -1, 0, 256), (0, 2 * n, 0, 256), (1, 3 * n + 1, 1, 256), (1, n * n, r.range(2, 1 << 20), 3),
+                        (0, -1, r.range(2, 1 << 20), 1), (1, 2 * n, 1, 256)]
+                if ctx.quick: cfgs = cfgs[:2] + [r.choice(cfgs[2:]) for _ in range(2)]
+                ops = list(ds["ops"])
+                for (shr, cache, perm, batch) in cfgs:
+                    ops.append(f"train {F} {bias} {shr} {cache} {C} {eps} {perm} {batch} {kern}")
+                rc, lines, err = run_harness_lines(exe, ops)
+                ctx.count("train_runs", len(cfgs)); ctx.count("evaluations", len(cfgs))
+                ctx.hist("train_formulation", F + ("+b" if bias else ""))
+                res = [parse_train(l) for l in lines[2:]]
+                key = None; what = ""
+                if rc != 0 or len(res) != len(cfgs):
+                    m = re.search(r"ERROR: AddressSanitizer: (\S+)|runtime error: ([^\n]*)", err)
+                    key = f"crash:train:{(m.group(1) or m.group(2)) if m else 'abort'}:{F}"; what = f"trainer harness aborted: {err[-400:]}"
+                else:
+                    P = FORM_P[F](k) if k > 2 else 1
+                    epsf, Cf = float(eps), float(C)
+                    gap = epsf * n * P * Cf
+                    outputs = int(res[0].get("outputs", "1"))
+                    for cfg, rr in zip(cfgs, res):
+                        ctx.hist("train_path", rr.get("path", "?"))
+                        if rr["oracle"]:
+                            key = f"oracle:{'+'.join(sorted(set(rr['oracle'])))}:{F}{'+b' if bias else ''}"
+                            what = f"trainer-level oracle failed for config {cfg}: {rr['raw'][-300:]}"
+                            break
+                        # independently recomputed KKT violation / dual objective of the raw dual variables
+                        if "kkt" in rr and float(rr["kkt"]) > epsf * (1 + 1e-6) + 1e-9 * (1 + Cf * n):
+                            key = f"oracle:kkt-not-reached:{F}{'+b' if bias else ''}"; what = f"recomputed KKT violation {rr['kkt']} > eps {eps} for config {cfg}"
+                            break
+                        if "obj" in rr and abs(float(rr["obj"]) - float(rr["value"])) > 1e-7 * (1 + abs(float(rr["obj"]))) and not bias:
+                            key = f"oracle:objective-mismatch:{F}"; what = f"reported dual objective {rr['value']} vs recomputed {rr['obj']} for config {cfg}"
+                            break
+                    if key is None:
+                        b0 = res[0]
+                        for cfg, rr in zip(cfgs[1:], res[1:]):
+                            worst = 0.0
+                            for name, pts, cnt in (("dec", ds["probes"], ds["m"]), ("tdec", ds["xs"], n)):
+                                va, vb = b0[name], rr[name]
+                                if F in CENTRED and k > 2 and outputs > 1:
+                                    va, vb = centre(va, outputs), centre(vb, outputs)
+                                for j in range(cnt):
+                                    tol = 2 * math.sqrt(2 * gap) * math.sqrt(max(kxx(ds, pts, j, kern), 0.0)) + (epsf if bias else 0.0) + 1e-9
+                                    for c in range(outputs):
+                                        dev = abs(va[j * outputs + c] - vb[j * outputs + c])
+                                        worst = max(worst, dev / tol if tol > 0 else (0 if dev == 0 else 1e9))
+                            ctx.hist("train_dev_over_tol", "<=0.01" if worst <= 0.01 else "<=0.1" if worst <= 0.1 else "<=1" if worst <= 1 else ">1")
+                            if abs(float(b0["value"]) - float(rr["value"])) > 2 * gap + 1e-9 * (1 + abs(float(b0["value"]))) and F != "OVA":
+                                worst = max(worst, 1e6)
+                            if worst > 1:
+                                if bias and k > 2 and F != "OVA":
+                                    key = f"F-C16-2:mc-bias-path-dependent:{F}"
+                                    what = (f"multi-class SVM with offset: decision function / dual value depends on the configuration beyond the solver accuracy "
+                                            f"(base {cfgs[0]} value={b0['value']} vs {cfg} value={rr['value']}, deviation/tolerance={worst:.3g})")
+                                else:
+                                    key = f"oracle:config-dependent:{F}{'+b' if bias else ''}"
+                                    what = (f"decision function depends on the configuration beyond the solver accuracy: base {cfgs[0]} vs {cfg}, "
+                                            f"deviation/tolerance={worst:.3g}, values {b0['value']} / {rr['value']}")
+                                ops = list(ds["ops"]) + [ops[2], ops[2 + cfgs.index(cfg)]]
+                                break
+                if key is not None:
+                    nviol += 1
+                    k0 = key.split(":")[0] + ":" + key.split(":")[1]
+                    if k0 in seen: continue
+                    seen.add(k0)
+                    ctx.violation(key, {"kind": "train", "harness_cmd": [exe], "ops": ops, "stderr_tail": err[-800:]}, True, what)
+    return nviol
+
+
 def run(ctx):
     ctx.trusted += ["translator translate/mcsvm_tables.py (C++ subset parser; every generated table is also compared with the real arrays)",
                     "correspondence harnesses harness/c16*.cpp + generator checks/c16.py",
@@ -263,10 +412,38 @@ def run(ctx):
     ctx.cov["distinct_nontrivial"] += len({"\n".join(c) for c in bcases if len(c) > 3})
     ctx.sample({"box_ops": bcases[len(bcases) // 2][:8]})
     correspond_box(ctx, "K-C16-box", bcases, [exe], [drv])
+    # trainer level
+    tcorp = [c for c in corpus if c[0].startswith("data")]
+    for c in tcorp:
+        replay_train(ctx, exe, c, report=True)
+    trainer_sweeps(ctx, exe, 10 if ctx.quick else 60)
+
+
+def replay_train(ctx, exe, ops, report=False):
+    """corpus / replay of a trainer-level case: data, probes, base config, other config"""
+    rc, lines, err = run_harness_lines(exe, ops)
+    res = [parse_train(l) for l in lines[2:]]
+    bad = rc != 0 or any(r["oracle"] for r in res)
+    vals = [r.get("value") for r in res]
+    devs = []
+    if len(res) >= 2 and "dec" in res[0]:
+        devs = [max(abs(a - b) for a, b in zip(res[0]["dec"], r["dec"])) for r in res[1:]]
+    print(f"train replay: rc={rc} values={vals} max decision deviations vs first config={devs} oracle={[r['oracle'] for r in res]}")
+    if report:
+        ctx.count("corpus_train_cases")
+    return bad, vals, devs
 
 
 def replay(ctx, rep):
     exe = build(ctx); drv = ctx.driver("drv_c16")
+    if rep.get("kind") == "train":
+        bad, vals, devs = replay_train(ctx, exe, rep["ops"])
+        print("FAILS" if bad or any(d > 1e-2 for d in devs) else "OK")
+        return 1 if bad or any(d > 1e-2 for d in devs) else 0
+    if rep.get("kind") == "box":
+        rb = run_box(ctx, [exe], [drv], rep["ops"])
+        print("\n".join(f"impl : {a[:300]}\nmodel: {b[:300]}" for a, b in zip(rb.impl, rb.model)))
+        print("OK" if rb.ok else "FAILS"); return 0 if rb.ok else 1
     res = core.run_case(ctx, rep.get("harness_cmd", [exe]), [drv], rep["ops"])
     print("\n".join(f"impl : {a}\nmodel: {b}" for a, b in zip(res.impl, res.model)))
     print("stderr:", res.stderr[-2000:])
